@@ -525,7 +525,7 @@ func genFlow(ctx *core.Ctx) {
 			}
 		}
 	}
-	for i := 0; i < ctx.Pick(1500, 40000); i++ {
+	for i := 0; i < ctx.Pick(1000, 40000); i++ {
 		m, env, _ := randModel(ctx.Rng, false)
 		ctx.Count("flow-random")
 		ctx.Add("c20.flow", c20TreeArgs{Dict: enc(m.main()), Env: env, PName: m.pname})
@@ -736,14 +736,14 @@ func genLeak(ctx *core.Ctx) {
 		ctx.Add("c20.leak", m.leakArgs(env, cores, "single"))
 	}
 	// random models
-	for i := 0; i < ctx.Pick(2500, 60000); i++ {
+	for i := 0; i < ctx.Pick(1400, 50000); i++ {
 		m, env, cores := randModel(ctx.Rng, false)
 		layout := []string{"single", "single", "override", "include"}[ctx.Rng.Intn(4)]
 		ctx.Count("leak-random-" + layout)
 		ctx.Add("c20.leak", m.leakArgs(env, cores, layout))
 	}
 	// malformed stream: random node kinds at resource positions, validation on or off
-	for i := 0; i < ctx.Pick(800, 20000); i++ {
+	for i := 0; i < ctx.Pick(400, 15000); i++ {
 		r := ctx.Rng
 		m, env, cores := randModel(r, false)
 		a := m.leakArgs(env, cores, "single")
